@@ -1,11 +1,13 @@
 package main
 
 import (
+	"context"
 	"errors"
 	"flag"
 	"fmt"
 
 	"go.amzn.com/lambda/core"
+	"go.amzn.com/lambda/interop"
 	"verifharness/internal/rng"
 	"verifharness/internal/trace"
 )
@@ -17,7 +19,7 @@ func init() {
 }
 
 // errors handed to CancelWithError are identified by a small number
-var cancelErrs = []error{errors.New("e0"), errors.New("e1"), errors.New("e2")}
+var cancelErrs = []error{errors.New("e0"), errors.New("e1"), errors.New("e2"), interop.ErrRestoreHookTimeout}
 
 func errName(err error) string {
 	if err == nil {
@@ -283,6 +285,7 @@ func parseCancel(arg int) error {
 
 func newInitFlowAPI() *flowAPI {
 	f := core.NewInitFlowSynchronization()
+	afterClear := true // a new flow is as good as a cleared one
 	return &flowAPI{
 		ngates: 4,
 		awaits: []func() error{f.AwaitExternalAgentsRegistered, f.AwaitRuntimeReady, f.AwaitAgentsReady, f.AwaitRuntimeRestoreReady},
@@ -306,10 +309,22 @@ func newInitFlowAPI() *flowAPI {
 			case "clear":
 				f.Clear()
 				return "-", true
+			case "awaitRuntimeReadyExpired":
+				// the restore hook's deadline passes while the runtime-ready gate is closed (the op is only issued
+				// right after a clear, so the wait cannot have ended by itself): the whole flow is cancelled
+				ctx, cancel := context.WithCancel(context.Background())
+				cancel()
+				return retName(f.AwaitRuntimeReadyWithDeadline(ctx)), true
 			}
 			return "", false
 		},
 		gen: func(r *rng.R) (string, int) {
+			if afterClear {
+				afterClear = false
+				if r.Intn(2) == 0 {
+					return "awaitRuntimeReadyExpired", 0
+				}
+			}
 			switch r.Pick([]int{8, 8, 14, 10, 12, 8, 5, 4}) {
 			case 0:
 				return "setExternalAgentsRegisterCount", r.Intn(4)
@@ -326,6 +341,7 @@ func newInitFlowAPI() *flowAPI {
 			case 6:
 				return "cancelWithError", r.Intn(4) - 1
 			}
+			afterClear = true
 			return "clear", 0
 		},
 		release: func() { f.CancelWithError(nil) },
